@@ -511,6 +511,9 @@ func runCheckFull(o CheckOpts) (cr CheckResult) {
 	if !o.NoEvid {
 		writeEvidence(o, reports, allRes, nObl, nDis, bySolver, knownLines, violations, wall)
 	}
+	if len(violations) == 0 && os.Getenv("GOVC_KEEP_QUERIES") == "" {
+		pruneQueries(o)
+	}
 	cr = CheckResult{Violations: violations, Known: knownLines, Obligations: nObl, Discharged: nDis}
 	if len(violations) > 0 {
 		cr.Code = 1
@@ -1018,4 +1021,27 @@ func loadFactor() float64 {
 		return 4
 	}
 	return f
+}
+
+// pruneQueries keeps, after a clean run, only the query files that the evidence
+// file refers to (samples, slowest obligations): the rest are several hundred
+// megabytes per property and are regenerated by the next run anyway.
+func pruneQueries(o CheckOpts) {
+	keep := map[string]bool{}
+	if b, err := os.ReadFile(filepath.Join(verifDir, "evidence", o.Prop+".json")); err == nil {
+		for _, m := range regexp.MustCompile(`"(/[^"]+\.smt2)"`).FindAllStringSubmatch(string(b), -1) {
+			keep[m[1]] = true
+		}
+	}
+	dir := filepath.Join(o.OutDir, "smt")
+	ents, err := os.ReadDir(dir)
+	if err != nil {
+		return
+	}
+	for _, e := range ents {
+		p := filepath.Join(dir, e.Name())
+		if !keep[p] {
+			os.Remove(p)
+		}
+	}
 }
